@@ -521,10 +521,13 @@ def run(ctx):
     # quick tier: full fault enumeration on a rotating third of the cases, always including a big one
     reg = [i for i in order if cases[i]["kind"] == "regular"]
     non = [i for i in order if cases[i]["kind"] != "regular"]
-    for i in reg[:4] + non[:3]:
+    quick_key = set()    # only the boundaries around the mutating calls of the write protocol
+    for i in reg[:1] + non[:2]:
         quick_full.add(cases[i]["name"])
+    for i in reg[1:4]:
+        quick_key.add(cases[i]["name"])
     if ctx.seed % 2 == 0:
-        quick_full.add("big64k")
+        quick_key.add("big64k")
     blocks = []         # per case: (definitions, [C<k> definitions])
     labels = []
     nkill = 0
@@ -640,14 +643,14 @@ def run(ctx):
         if ci < 2:
             ctx.sample({"case": c["name"], "ops": [repr(s)[:120] for s in full_shapes]})
         # ---- fault enumeration
-        if not (thorough or c["name"] in quick_full):
+        if not (thorough or c["name"] in quick_full or c["name"] in quick_key):
             env.cleanup()
             continue
         hit = set()
         for S in sorted(counts):
             if S not in MUT_CLASSES and not thorough:
                 continue
-            if len(c["orig"]) > 30000 and not thorough and S not in BIG_CLASSES:
+            if c["name"] in quick_key and not thorough and S not in BIG_CLASSES:
                 continue
             if S in ("execve", "mmap", "munmap"):
                 continue
@@ -737,3 +740,21 @@ def _coq_leg(ctx, blocks, labels):
     ctx.leg("code:proved protocol checker accepts the decoded strace trace of shfmt -w (vm_compute in kernel)", n, mism_chk)
     ctx.leg("code:Fs.v model run on the trace predicts the observed directory state, complete and killed runs", n, mism_pred)
     ctx.leg("code:every prefix of the decoded trace shows the old or the new file in the model", n, mism_pref)
+
+
+META = {
+    "category": "proof",
+    "text": ("Coq theorem over a small file-system model (directory entries, inodes, descriptors; openat O_CREAT|O_EXCL, "
+             "write, fchmod, fsync, close, renameat, unlinkat, open O_TRUNC): a boolean protocol checker is sound for every "
+             "initial state and every crash point (prefix of the trace): the target holds exactly the old or exactly the new "
+             "bytes with the old permission bits, and after the full trace no file created by the run is left; an in-place "
+             "open(O_TRUNC)+write trace is rejected and has a partial crash state. The proved checker is run inside Coq on "
+             "the strace-decoded system-call trace of the real shfmt -w (complete and killed runs), and the model's "
+             "predicted directory state is compared with the real one. fault_enumeration: the process is killed before the "
+             "k-th call of every system call class (strace inject SIGKILL), for files of several sizes and modes, symlink "
+             "and FIFO targets, and the directory is inspected."),
+    "technique": "proof + fault_enumeration",
+    "note": ("Trusted: Coq kernel + vm_compute; the Linux kernel; strace's decoding of system calls and its kill injection; "
+             "the trace decoder in checks/c35.py. Process kill only: durability after power loss is out of scope."),
+    "design_ref": "DESIGN.md 4 C35",
+}
